@@ -42,7 +42,7 @@ func selIs(e ast.Expr, recv, field string) bool {
 
 func genCallGraph(out string) error {
 	fset := token.NewFileSet()
-	f, err := parser.ParseFile(fset, "/repo/js/parse.go", nil, 0)
+	f, err := parser.ParseFile(fset, repoRoot+"/js/parse.go", nil, 0)
 	if err != nil {
 		return err
 	}
